@@ -269,4 +269,77 @@ theorem vertexSet_refold (h h' : Heap) (s : Step Val) (pm m : MNode Val) (v : Va
     · simp at hs
   · simp at hs
 
+/-- **`vertex.pop` on the tree**: the document afterwards unfolds to the old tree without the
+entry, at the location of the match's parent; nothing else changed, no aliasing appears -/
+theorem vertexPop_refold (h h' : Heap) (last : Option (Step Val)) (m : MNode Val) (root : Val) (j : J)
+    (hp : vertexPop h last m = .ok h') (hu : UnfJ h j root) (hsep : (fpJ h j root).Nodup)
+    (hloc : ∀ p, m.parent = some p → walk (hview h) root p.loc = some p.data) :
+    ∃ p nm j', m.parent = some p ∧ J.popAt j p.loc nm = some j' ∧ UnfJ h' j' root ∧ (fpJ h' j' root).Nodup ∧
+      ∀ x ∈ fpJ h' j' root, x ∈ fpJ h j root := by
+  unfold vertexPop at hp
+  cases hpar : m.parent with
+  | none => simp [hpar] at hp
+  | some p =>
+    have hl := hloc p hpar
+    simp only [hpar, Option.map_some] at hp
+    split at hp
+    · -- key
+      rename_i k id hd
+      simp only [Option.some.injEq] at hd
+      rw [hd] at hl
+      split at hp
+      · rename_i es ho
+        split at hp
+        · rename_i w es' hdel
+          simp only [Except.ok.injEq] at hp
+          subst hp
+          simp only [dictDel] at hdel
+          cases hlk : es.lookup k with
+          | none => simp [hlk] at hdel
+          | some c =>
+            simp only [hlk, Option.some.injEq, Prod.mk.injEq] at hdel
+            obtain ⟨_, rfl⟩ := hdel
+            have hb := base_dict h id es (dictErase es k) [] (fun c => c.delName (.key k)) ho (by
+              intro kvs hkeys q1
+              obtain ⟨pp, jc, _, p2, _, _, _, p6, p7, p8, p9⟩ := kvs_pos kvs es k c hkeys hlk
+              obtain ⟨u1, u2, u3⟩ := unfList_erase (kvs.map Prod.snd) (es.map Prod.snd) pp q1
+              refine ⟨kvsErase kvs k, by simp [J.delName, p2], by rw [p7, p9, hkeys], by rw [p6, p8]; exact u1, ?_, ?_⟩
+              · intro x hx; rw [p6, p8] at hx; left; exact u2 x hx
+              · intro n1 _; rw [p6, p8]; exact u3 n1)
+            obtain ⟨_, j', g1, g2, g3, g4⟩ := refold h id _ _ _ hb p.loc root j hu hsep (by simp) hl
+            exact ⟨p, .key k, j', rfl, g1, g2, g3, fun x hx => by simpa using g4 x hx⟩
+        · simp at hp
+      · simp at hp
+    · -- index
+      rename_i i id hd
+      simp only [Option.some.injEq] at hd
+      rw [hd] at hl
+      split at hp
+      · rename_i xs ho
+        split at hp
+        · rename_i w xs' hdel
+          simp only [Except.ok.injEq] at hp
+          subst hp
+          simp only [listDel] at hdel
+          cases hni : normIndex xs.length i with
+          | none => simp [hni] at hdel
+          | some pp =>
+            simp only [hni] at hdel
+            cases hg : xs[pp]? with
+            | none => simp [hg] at hdel
+            | some c =>
+              simp only [hg, Option.map_some, Option.some.injEq, Prod.mk.injEq] at hdel
+              obtain ⟨_, rfl⟩ := hdel
+              have hb := base_list h id xs (xs.eraseIdx pp) [] (fun c => c.delName (.idx i)) ho (by
+                intro ys hlen q1
+                obtain ⟨u1, u2, u3⟩ := unfList_erase ys xs pp q1
+                refine ⟨ys.eraseIdx pp, by simp [J.delName, hlen, hni], u1, ?_, ?_⟩
+                · intro x hx; left; exact u2 x hx
+                · intro n1 _; exact u3 n1)
+              obtain ⟨_, j', g1, g2, g3, g4⟩ := refold h id _ _ _ hb p.loc root j hu hsep (by simp) hl
+              exact ⟨p, .idx i, j', rfl, g1, g2, g3, fun x hx => by simpa using g4 x hx⟩
+        · simp at hp
+      · simp at hp
+    · simp at hp
+
 end Treepath
